@@ -35,8 +35,8 @@ CHECKS = {
     "C14": ("abstract interpretation with linear forms and Euclid/truncating-remainder axioms; decision tables; E5 frame rule",
             "floor: F <= x, x - F < |s|, F = x - (x mod s) with operands provably the exact counts; zero step => 0; ceil = floor + |s| (MAX on overflow); round picks floor iff strictly nearer (ties up); Epoch forms delegate in the epoch's own scale.",
             "3.C14"),
-    "C17": ("abstract interpretation with uninterpreted scale conversion, constant folding (IEEE doubles) and table agreement with the statement's constants",
-            "Every Duration-valued JD/MJD/UNIX view is to_S_duration() + K with K equal to the statement's constant; every float view is to_unit/to_seconds of such a duration with the right unit; from_mjd/from_jde constructors place the day count relative to each of the nine scales' own reference epoch (oracle reference dates), from_unix mirrors the 1970 constant. Ulp clauses of the float views are NOT decided.",
+    "C17": ("abstract interpretation with uninterpreted scale conversion, constant folding (IEEE doubles), table agreement with the statement's constants, static rounding-error analysis of the float views' expression trees",
+            "Every Duration-valued JD/MJD/UNIX view is to_S_duration() + K with K equal to the statement's constant; every float view is to_unit/to_seconds of such a duration with the right unit; from_mjd/from_jde constructors place the day count relative to each of the nine scales' own reference epoch (oracle reference dates), from_unix mirrors the 1970 constant; the public reference-epoch constants are the statement's instants (R5; J2000_REF_EPOCH is a test-locked known finding); the float views' 'few ulps' clause = static rounding-error bound of to_seconds/to_unit (R6, shared with C18.R6: <= 8u*max(|exact|, 1 s)). The float round trip value -> epoch -> value is NOT decided.",
             "3.C17"),
     "C20": ("abstract interpretation with linear forms and division axioms; dominating-guard and delegation rules",
             "from_time_of_week = from_total_nanoseconds(ns + week*7d) in the given scale; to_time_of_week satisfies week*7d+ns == count, 0 <= ns < 7d for non-negative counts; GNSS ns counters exact, Ok only under centuries == 0; day-of-year siblings share the anchor with paired +/-1.0.",
@@ -53,8 +53,8 @@ CHECKS = {
     "C07": ("constant agreement with the NAIF kernel file + expression-DAG shape comparison (abstract interpretation, sin uninterpreted) + operand-flow/sign rules",
             "PARTIAL (necessary conditions): NAIF/TDB constants equal the kernel's and the statement's; delta_et_tai and inner_g are exactly the closed forms as expression DAGs; both directions of ET and TDB apply the same correction with opposite signs, mirrored 32.184 s shift and J2000 offset; the correction is evaluated within 1 s of the epoch's own seconds -/+ 32.184 s (interval evaluation of the refinement loop's float term), which bounds the induced error below 1 ns. The 30 ns / 20 ns / 100 ns accuracy clauses themselves are floating-point error bounds and are NOT decided.",
             "3.C07"),
-    "C18": ("finite-map/table agreement + decision-table extraction over float comparison terms + reachability of panics / loop bounds by abstract interpretation",
-            "PARTIAL: factor tables of Unit x f64 / Unit x i64 / in_seconds agree and match the statement; Unit<->u8 inverse; Unit x f64 saturates by the documented three-way decision and hands trunc(q*factor) to the exact integer constructors; no panic and bounded loops for any f64 in Unit x f64, to_seconds/to_unit, from_* and Duration x f64; in Duration x f64 the integer converted is the one the integrality test certified (same rounding function) and the test's tolerance is relative (<= 2 eps) or bounded by 1 ns over 10 000 years. Ulp/rounding/monotonicity clauses of the float views are NOT decided.",
+    "C18": ("finite-map/table agreement + decision-table extraction over float comparison terms + reachability of panics / loop bounds by abstract interpretation + static rounding-error and forward-difference analysis of the float expression tree of every path (standard model of IEEE-754 arithmetic, exact rational bounds)",
+            "PARTIAL: factor tables of Unit x f64 / Unit x i64 / in_seconds agree and match the statement; Unit<->u8 inverse; Unit x f64 saturates by the documented three-way decision and hands trunc(q*factor) to the exact integer constructors; no panic and bounded loops for any f64 in Unit x f64, to_seconds/to_unit, from_* and Duration x f64; in Duration x f64 the integer converted is the one the integrality test certified (same rounding function) and the test's tolerance is relative (<= 2 eps) or bounded by 1 ns over 10 000 years; Duration -> float: for every path of to_seconds and of to_unit per unit, |result - exact| <= 8u*max(|exact|, 1 s) (derived: 2.6u / <= 4.7u), correct sign, zero to zero, and monotone non-decreasing over [MIN, MAX] (regions tile, forward differences >= 0, seams ordered). NOT decided: the error clauses of float -> Duration ('exactly the product below 2^53') and of Duration x f64.",
             "3.C18"),
     "C11": ("abstract interpretation with division axioms; table-chain agreement (writer/reader); E7 format-template decoding over all Display path partitions",
             "decompose: weighted sum of the seven integer outputs == |count|, ranges, sign; Display unit strings -> UNITS slots -> compose_f64 parameters -> TimeUnits methods -> the same weights; all 25 spellings; Display prints '-' iff negative, '0 ns' iff zero, exactly the non-zero components in order with single spaces; serde via Display/FromStr.",
